@@ -200,7 +200,7 @@ mod harnesses {
     #[kani::proof]
     #[kani::unwind(18)]
     fn q_c10_listener_specific_objects_agree() {
-        let l = any_listener(0, 2, 2);
+        let l = any_listener(0, 1, 2);
         let o = any_object_id(2);
         assert!(l.matches_object(o) == spec_listener_matches_object(&l, o));
         match l.specific_objects() {
@@ -225,7 +225,7 @@ mod harnesses {
     #[kani::proof]
     #[kani::unwind(18)]
     fn q_c10_listener_specific_services_agree() {
-        let l = any_listener(0, 2, 2);
+        let l = any_listener(0, 1, 2);
         let o = any_object_id(2);
         let s = any_service_id(2);
         assert!(l.matches_service(s) == spec_listener_matches_service(&l, s));
@@ -246,6 +246,39 @@ mod harnesses {
         }
         kani::cover!(l.specific_services().is_some() && l.matches_service(s));
         kani::cover!(l.specific_services().is_none());
+        std::mem::forget(l);
+    }
+
+    /// C10-b: two filters of fixed kinds (symbolic uuids): specific object + specific service
+    /// cannot both take the fast paths; two specific objects are enumerated once each.
+    #[kani::proof]
+    #[kani::unwind(18)]
+    fn q_c10_listener_two_filters_paths() {
+        let mut l = BusListener::new(ConnectionId(0));
+        let o1 = obj_uuid(any_below(2));
+        let o2 = obj_uuid(any_below(2));
+        let sv = svc_uuid(any_below(2));
+        l.add_filter(BusListenerFilter::object(o1));
+        if kani::any() {
+            l.add_filter(BusListenerFilter::object(o2));
+        } else {
+            l.add_filter(BusListenerFilter::specific_object_and_service(o2, sv));
+        }
+        assert!(inv(&l));
+        let o = any_object_id(2);
+        let mut hits = 0;
+        match l.specific_objects() {
+            Some(it) => {
+                for u in it {
+                    if u == o.uuid {
+                        hits += 1;
+                    }
+                }
+            }
+            None => panic!("no any-object filter was added"),
+        }
+        assert!(hits <= 1 && (hits == 1) == l.matches_object(o));
+        assert!(l.specific_services().is_none(), "an object filter disables the specific-service fast path");
         std::mem::forget(l);
     }
 
